@@ -74,7 +74,16 @@ Objects == {{e} : e \in EventVariants}
            \cup {{Comp("VTODO", "Meeting", "none")}}
            \cup {{e, Comp("VTODO", "", "none")} : e \in {Comp("VEVENT", "Meeting", "accepted"), Comp("VEVENT", "", "none")}}
 
+\* objects with two components of the same type (the second one an override carrying
+\* RECURRENCE-ID), in both orders: the component that decides may be the first or the last
+PairVariants == {Comp("VEVENT", "Meeting", "accepted"), Comp("VEVENT", "", "none"),
+                 Comp("VEVENT", "meeting notes", "declined"), Comp("VEVENT", "xyz", "plain")}
+Objects2 == {q \in PairVariants \X PairVariants : q[1] # q[2]}
+            \cup {<<a, b, Comp("VTODO", "", "none")>> : a \in {Comp("VEVENT", "Meeting", "accepted")}, b \in {Comp("VEVENT", "", "none")}}
+RangeOf(q) == {q[j] : j \in DOMAIN q}
+
 FilterTable == {[f |-> f, obj |-> SetToSeq(o), want |-> ObjMatches(f, o)] : f \in Filters, o \in Objects}
+               \cup {[f |-> f, obj |-> q, want |-> ObjMatches(f, RangeOf(q))] : f \in Filters, q \in Objects2}
 
 VARIABLE x
 Init == x = 0
